@@ -1,6 +1,7 @@
 """C16, C17 (and the lifecycle clauses of C13, C10): Lifecycle.tla model-checked
 by TLC, and traces of the real server validated against it."""
 import json
+import re
 import os
 import subprocess
 import time
@@ -284,6 +285,218 @@ def spec_schedules(prop, tier, mode, cov):
     return chosen
 
 
+
+# ---------------------------------------------------------------------------
+# traces of the repository's own integration tests (server events only)
+# ---------------------------------------------------------------------------
+NSLOTS = 32
+
+
+def server_subtraces(files):
+    """Split per-process event files by server; returns a list of (mode, [events]) with requests and
+    connections renamed to slots (TraceServerOnly.tla)."""
+    out = []
+    stats = {"processes": len(files), "servers": 0, "requests": 0, "events": 0, "skipped_events": 0,
+             "servers_dropped_for_slots": 0}
+    for path in files:
+        with open(path) as f:
+            evs = [json.loads(x) for x in f if x.strip()]
+        srv_of_id = {}
+        gen = {}            # srv port -> generation (a port may be reused by a later server)
+        per = {}            # (srv, gen) -> events
+        done = set()
+        for e in evs:
+            srv = e.get("srv")
+            if srv is None and "id" in e:
+                key = srv_of_id.get(e["id"])
+            elif srv is not None:
+                g = gen.setdefault(srv, 0)
+                if (srv, g) in done and e["ev"] in ("accept", "req_start", "close_requested", "accept_exit"):
+                    gen[srv] = g = g + 1
+                key = (srv, g)
+                if e["ev"] == "req_start":
+                    srv_of_id[e["id"]] = key
+                if e["ev"] == "waitgroup_done":
+                    done.add(key)
+            else:
+                key = None
+            if key is None:
+                stats["skipped_events"] += 1   # close_requested via Drop, body_frame, ws_upgraded: no server / request id
+                continue
+            per.setdefault(key, []).append(e)
+        for key, es in per.items():
+            mode = "detached" if any(e["ev"] == "spawn" for e in es) else "cancel"
+            # status of the response that follows a handler's return, by request id
+            status_of = {e["id"]: e["status"] for e in es if e["ev"] == "resp_ready"}
+            free_r = ["r%d" % i for i in range(NSLOTS)]
+            free_c = ["c%d" % i for i in range(2 * NSLOTS)]
+            slot_of_id, slot_of_port, live = {}, {}, {}   # live: id -> {"ended":bool,"spawned":bool,"exited":bool}
+            idle_conn_lru = []
+            res = [{"ev": "reset", "srv": key[0], "mode": mode}]
+            ok = True
+
+            def finished(st):
+                return st["ended"] and (not st["spawned"] or st["exited"]) and not st["running"]
+
+            for e in es:
+                ev = e["ev"]
+                if ev == "accept":
+                    port = e["port"]
+                    if port in slot_of_port:
+                        continue
+                    if not free_c:
+                        # reuse the slot of a connection none of whose requests is alive
+                        busy = {live[i]["port"] for i in live}
+                        victim = next((p for p in idle_conn_lru if p not in busy), None)
+                        if victim is None:
+                            ok = False
+                            break
+                        idle_conn_lru.remove(victim)
+                        c = slot_of_port.pop(victim)
+                        res.append({"ev": "recycle_conn", "c": c})
+                        free_c.append(c)
+                    c = free_c.pop(0)
+                    slot_of_port[port] = c
+                    idle_conn_lru.append(port)
+                    res.append({"ev": "accept", "c": c})
+                elif ev == "req_start":
+                    # free the slots of finished requests first
+                    for i in [i for i, st in live.items() if finished(st)]:
+                        res.append({"ev": "recycle", "k": slot_of_id[i]})
+                        free_r.append(slot_of_id.pop(i))
+                        del live[i]
+                    if e["port"] not in slot_of_port or not free_r:
+                        ok = False
+                        break
+                    k = free_r.pop(0)
+                    slot_of_id[e["id"]] = k
+                    live[e["id"]] = {"ended": False, "spawned": False, "exited": False, "running": False,
+                                     "port": e["port"]}
+                    res.append({"ev": "req_start", "k": k, "c": slot_of_port[e["port"]], "id": e["id"]})
+                    stats["requests"] += 1
+                elif ev in ("version_ok", "route_ok", "spawn", "extract_ok", "handler_call", "handler_return",
+                            "task_exit", "req_cancelled", "resp_ready"):
+                    i = e["id"]
+                    if i not in slot_of_id:
+                        ok = False
+                        break
+                    st = live[i]
+                    rec = {"ev": ev, "k": slot_of_id[i]}
+                    if ev == "spawn":
+                        st["spawned"] = True
+                    elif ev == "task_exit":
+                        st["exited"] = True
+                    elif ev == "handler_call":
+                        st["running"] = True
+                    elif ev == "handler_return":
+                        st["running"] = False
+                        rec["status"] = status_of.get(i, 200 if e.get("ok") else 500)
+                    elif ev == "req_cancelled":
+                        st["ended"] = True
+                        if mode == "cancel":
+                            st["running"] = False
+                    elif ev == "resp_ready":
+                        st["ended"] = True
+                        rec.update({"status": e["status"], "err": e["err"], "idhdr": e["idhdr"]})
+                    res.append(rec)
+                elif ev in ("close_requested", "accept_exit", "graceful_done", "waitgroup_done"):
+                    res.append({"ev": ev})
+            if not ok:
+                stats["servers_dropped_for_slots"] += 1
+                continue
+            stats["servers"] += 1
+            stats["events"] += len(res)
+            out.append((mode, res))
+    return out, stats
+
+
+def server_only_binding_demo(prop, path):
+    """The server-only trace spec is bound to the trace: a dropped hook event, a detached task that never
+    exits before waitgroup_done and a foreign x-request-id must each be rejected."""
+    with open(path) as f:
+        lines = [x for x in f.read().split("\n") if x.strip()]
+    eps = [e for e in vlib.split_episodes(lines) if any('"ev":"task_exit"' in x for x in e)
+           and any('"ev":"waitgroup_done"' in x for x in e)][:6]
+    lines = [x for e in eps for x in e]
+    muts = {}
+    for i, ln in enumerate(lines):
+        if '"ev":"spawn"' in ln and "drop_spawn_hook" not in muts:
+            muts["drop_spawn_hook"] = lines[:i] + lines[i + 1:]
+        if '"ev":"resp_ready"' in ln and "foreign_request_id_header" not in muts:
+            d = json.loads(ln)
+            d["idhdr"] = ["00000000-0000-4000-8000-000000000000"]
+            muts["foreign_request_id_header"] = lines[:i] + [json.dumps(d, separators=(",", ":"))] + lines[i + 1:]
+    last_exit = max((i for i, ln in enumerate(lines) if '"ev":"task_exit"' in ln), default=None)
+    if last_exit is not None:
+        muts["task_never_exits_before_waitgroup_done"] = lines[:last_exit] + lines[last_exit + 1:]
+    out = {}
+    for name, ml in muts.items():
+        mp = path + "." + name
+        with open(mp, "w") as f:
+            f.write("\n".join(ml) + "\n")
+        res = vlib.run_trace("%s-sobinding-%s" % (prop, name), "TraceServerOnly.tla", "TraceServerOnly.cfg", mp,
+                             env_extra={"MODE": "detached"}, java_opts=["-Dtlc2.tool.impl.Tool.cdot=true"])
+        os.unlink(mp)
+        out[name] = "rejected" if not res.accepted else "ACCEPTED"
+        if res.accepted:
+            raise vlib.ToolError("binding demonstration failed: mutated server-only trace %s was accepted" % name)
+    if len(out) < 3:
+        raise vlib.ToolError("binding demonstration could not be built from the recorded trace: %s" % list(out))
+    return out
+
+
+def repo_tests_traced(prop, tier, findings, cov):
+    """Run the repository's own integration tests with the hooks on and validate what their servers did."""
+    import glob
+    import shutil
+    tdir = os.path.join(vlib.WORK, "repotrace-" + prop)
+    shutil.rmtree(tdir, ignore_errors=True)
+    os.makedirs(tdir)
+    env = dict(os.environ, RUSTFLAGS="--cfg dropshot_verif --check-cfg cfg(dropshot_verif)",
+               CARGO_TARGET_DIR=os.path.join(vlib.WORK, "repotests-target"), DROPSHOT_VERIF_TRACE=tdir,
+               CARGO_NET_OFFLINE="true")
+    t0 = time.time()
+    # the three test_example_* tests run example binaries that this command does not build
+    p = subprocess.run(["cargo", "test", "--offline", "-p", "dropshot", "--test", "integration-tests", "--",
+                        "--test-threads=8", "--skip", "pagination::test_example"],
+                       cwd="/repo", env=env, stdout=subprocess.PIPE, stderr=subprocess.STDOUT, text=True, timeout=3400)
+    m = re.search(r"test result: (\w+)\. (\d+) passed; (\d+) failed", p.stdout)
+    vlib.log("[repo-tests] integration tests with hooks on: %s (%.0fs)" % (m.group(0) if m else "no result", time.time() - t0))
+    if not m:
+        raise vlib.ToolError("the repository's integration tests did not run: %s" % p.stdout[-1500:])
+    subs, stats = server_subtraces(sorted(glob.glob(os.path.join(tdir, "*.ndjson"))))
+    stats["tests_passed"], stats["tests_failed"] = int(m.group(2)), int(m.group(3))
+    rejected = 0
+    for mode in ("cancel", "detached"):
+        mine = [es for mo, es in subs if mo == mode]
+        if not mine:
+            continue
+        path = os.path.join(tdir, "servers-%s.trace" % mode)
+        with open(path, "w") as f:
+            for es in mine:
+                for e in es:
+                    f.write(json.dumps(e, separators=(",", ":")) + "\n")
+        if mode == "detached" and "binding_demo" not in stats:
+            stats["binding_demo"] = server_only_binding_demo(prop, path)
+        neps, nev, rejects, states = vlib.validate_trace_episodes(
+            "%s-repotests-%s" % (prop, mode), "TraceServerOnly.tla", "TraceServerOnly.cfg", path,
+            env_extra={"MODE": mode}, java_opts=["-Dtlc2.tool.impl.Tool.cdot=true"], max_rejects=5)
+        cov["traces_validated_against_impl"] += neps
+        cov["trace_events"] += nev
+        for rj in rejects:
+            rejected += 1
+            ev = rj["event"].get("ev", "?")
+            props = INV_PROP.get(rj["invariant"], set()) if rj["invariant"] else EVENT_PROP.get(ev, {"C16", "C17"})
+            if prop in props:
+                findings.add({"engine": "repo-tests-trace", "kind": rj["invariant"] or ("unexplained:" + ev), "shape": mode},
+                             {"mode": mode, "rejected_event": rj["event"], "violated_invariant": rj["invariant"],
+                              "state_before": rj["state_before"], "episode_events": rj["episode"][-60:],
+                              "note": "a server started by the repository's own integration tests did something no "
+                                      "behaviour of Lifecycle.tla explains (client steps inferred)"})
+    stats["rejected"] = rejected
+    cov["repo_integration_tests"] = stats
+
+
 def drive_and_validate(prop, tier, findings, cov):
     vlib.build_harness()
     episodes = 150 if tier == "quick" else 1200
@@ -385,6 +598,8 @@ def run(prop, tier, text_rule):
            "samples": [], "model_runs": []}
     model_check(prop, tier, findings, cov)
     drive_and_validate(prop, tier, findings, cov)
+    if tier == "thorough":
+        repo_tests_traced(prop, tier, findings, cov)
     cov["rule"] = text_rule
     rc = findings.report()
     vlib.write_evidence(prop, tier, "model_checking", cov,
